@@ -176,11 +176,20 @@ class RegionMask:
 
         # cutout is always a copy for partial overlap
         # use float if the fill value cannot be stored in the data dtype
-        # (non-finite, or non-integer for integer data)
-        if (not np.isfinite(fill_value)
-                or (data.dtype.kind in 'iub'
-                    and fill_value != np.trunc(fill_value))):
+        # (non-finite, or non-integer or out of range for integer data)
+        if not np.isfinite(fill_value):
             dtype = float
+        elif data.dtype.kind in 'iub':
+            if data.dtype.kind == 'b':
+                vmin, vmax = 0, 1
+            else:
+                info = np.iinfo(data.dtype)
+                vmin, vmax = info.min, info.max
+            if (fill_value != np.trunc(fill_value)
+                    or not vmin <= fill_value <= vmax):
+                dtype = float
+            else:
+                dtype = data.dtype
         else:
             dtype = data.dtype
         cutout = np.zeros(self.shape, dtype=dtype)
